@@ -57,7 +57,8 @@ type attached struct {
 	ends0  int // world.endsSeen when it joined
 	// playIdx: len(P) when the harness first saw the RTSP consumer's PLAY completed (-1: not yet): everything published
 	// from there on was published to a playing subscriber
-	playIdx int
+	playIdx  int
+	playEnds int // world.endsSeen at that moment
 	minInc int // content of earlier incarnations must never reach it
 	gone   bool
 }
@@ -787,6 +788,7 @@ func (w *world) notePlaying() {
 		}
 		if _, playing := a.rs.nframes(); playing {
 			a.playIdx = len(w.P)
+			a.playEnds = int(atomic.LoadInt32(&w.endsSeen))
 		}
 	}
 }
